@@ -659,6 +659,8 @@ def run(rep):
     r02h(rep, F)
     r02i(rep, F)
     r02j(rep, F)
+    from rules import c01
+    c01.r01w(rep, F, rule='R02k', pat=('/control/planners/',), frozen=6)
     solves = [f for f in P.solve_functions(F) if f.name.startswith(C)]
     must, may = c03.add_summaries(F)
     c03.r03a(rep, F, solves, must, may, rule='R02s', frozen=6)
